@@ -213,3 +213,182 @@ package proportion
 //@     invariant cachesOK(pp.queues)
 //@   ensures [cachesKept] cachesOK(pp.queues)
 //@ end
+
+// ==== input-building glue (helper "glue") ==========================================================
+// Properties C09 ("each queue's fair share is at least min(deserved quota, its request capped by its
+// limit) ... monotone in over-quota weight", "for every ... resource"), C08 ("its configured limit in any
+// resource", "its deserved quota") and C07 ("within its deserved quota in every resource") all read the
+// per-resource inputs Deserved / MaxAllowed / OverQuotaWeight of rs.QueueAttributes. These inputs are the
+// queue's configured quota / limit / overQuotaWeight OF THE SAME RESOURCE: CPU in milli-cpu as configured,
+// memory in bytes-units of the scheduler (configured value * 1000000, never below the -1 "unlimited"
+// sentinel), GPUs as configured. One define per resource: a stanza reading another resource's field fails
+// the obligation named after the resource.
+//@ define cpuFromCPU(a *rs.QueueAttributes, q *queue_info.QueueInfo) bool = a.CPU.Deserved == q.Resources.CPU.Quota && a.CPU.MaxAllowed == q.Resources.CPU.Limit && a.CPU.OverQuotaWeight == q.Resources.CPU.OverQuotaWeight
+//@ define memoryFromMemory(a *rs.QueueAttributes, q *queue_info.QueueInfo) bool = a.Memory.Deserved == max(0.0 - 1.0, q.Resources.Memory.Quota * 1000000.0) && a.Memory.MaxAllowed == max(0.0 - 1.0, q.Resources.Memory.Limit * 1000000.0) && a.Memory.OverQuotaWeight == q.Resources.Memory.OverQuotaWeight
+//@ define gpuFromGPU(a *rs.QueueAttributes, q *queue_info.QueueInfo) bool = a.GPU.Deserved == q.Resources.GPU.Quota && a.GPU.MaxAllowed == q.Resources.GPU.Limit && a.GPU.OverQuotaWeight == q.Resources.GPU.OverQuotaWeight
+// identity, hierarchy links, priority and age are copied from the queue
+//@ define metaFromQueue(a *rs.QueueAttributes, q *queue_info.QueueInfo) bool = a.UID == q.UID && a.Name == q.Name && a.ParentQueue == q.ParentQueue && a.ChildQueues == q.ChildQueues && a.Priority == q.Priority && a.CreationTimestamp == q.CreationTimestamp
+
+// historical usage (time-based fairness input) comes from the usage record of the same queue, resource by resource
+//@ define usageFromUsage(a *rs.QueueAttributes, u queue_info.QueueUsage) bool = a.CPU.Usage == u["cpu"] && a.Memory.Usage == u["memory"] && a.GPU.Usage == u["nvidia.com/gpu"]
+// a freshly built record carries no allocation, no request and no fair share yet
+//@ define zeroShare(s *rs.ResourceShare) bool = s.FairShare == 0.0 && s.Allocated == 0.0 && s.AllocatedNotPreemptible == 0.0 && s.Request == 0.0
+
+//@ func (*proportionPlugin).createQueueResourceAttrs
+//@   props C09 C08 C07 C10
+//@   requires pp != nil && ssn != nil && ssn.ClusterInfo != nil && pp.queues != nil
+//@   requires forall k in ssn.ClusterInfo.Queues :: ssn.ClusterInfo.Queues[k] != nil && ssn.ClusterInfo.Queues[k].UID == k
+//@   modifies pp.queues[*]
+//@   loop 1
+//@     invariant forall k in visited :: k in ssn.ClusterInfo.Queues
+//@     invariant forall k in visited :: k in pp.queues && pp.queues[k] != nil && allocated(pp.queues[k])
+//@     invariant forall s *rs.ResourceShare :: old(allocated(s)) ==> s.Deserved == old(s.Deserved) && s.MaxAllowed == old(s.MaxAllowed) && s.OverQuotaWeight == old(s.OverQuotaWeight) && s.FairShare == old(s.FairShare)
+//@     invariant forall s *rs.ResourceShare :: old(allocated(s)) ==> s.Allocated == old(s.Allocated) && s.AllocatedNotPreemptible == old(s.AllocatedNotPreemptible) && s.Request == old(s.Request) && s.Usage == old(s.Usage)
+//@     invariant forall s *rs.QueueResourceShare :: old(allocated(s)) ==> s.lastDeservedShare == old(s.lastDeservedShare)
+//@     invariant forall k in visited :: cpuFromCPU(pp.queues[k], ssn.ClusterInfo.Queues[k])
+//@     invariant forall k in visited :: memoryFromMemory(pp.queues[k], ssn.ClusterInfo.Queues[k])
+//@     invariant forall k in visited :: gpuFromGPU(pp.queues[k], ssn.ClusterInfo.Queues[k])
+//@     invariant forall k in visited :: metaFromQueue(pp.queues[k], ssn.ClusterInfo.Queues[k])
+//@     invariant forall k in visited :: k in ssn.ClusterInfo.QueueResourceUsage.Queues ==> usageFromUsage(pp.queues[k], ssn.ClusterInfo.QueueResourceUsage.Queues[k])
+//@     invariant forall k in visited :: !(k in ssn.ClusterInfo.QueueResourceUsage.Queues) ==> pp.queues[k].CPU.Usage == 0.0 && pp.queues[k].Memory.Usage == 0.0 && pp.queues[k].GPU.Usage == 0.0
+//@     invariant forall k in visited :: rs.cacheOK(pp.queues[k])
+//@     invariant forall k in visited :: zeroShare(pp.queues[k].CPU) && zeroShare(pp.queues[k].Memory) && zeroShare(pp.queues[k].GPU)
+//@     invariant forall k common_info.QueueID :: !(k in visited) ==> pp.queues[k] == old(pp.queues[k]) && (k in pp.queues) == old(k in pp.queues)
+//@     invariant forall k common_info.QueueID :: k in pp.queues ==> k in visited || old(k in pp.queues)
+//@   ensures [present] forall k in ssn.ClusterInfo.Queues :: k in pp.queues && pp.queues[k] != nil
+//@   ensures [cpuFromCPU] forall k in ssn.ClusterInfo.Queues :: cpuFromCPU(pp.queues[k], ssn.ClusterInfo.Queues[k])
+//@   ensures [memoryFromMemory] forall k in ssn.ClusterInfo.Queues :: memoryFromMemory(pp.queues[k], ssn.ClusterInfo.Queues[k])
+//@   ensures [gpuFromGPU] forall k in ssn.ClusterInfo.Queues :: gpuFromGPU(pp.queues[k], ssn.ClusterInfo.Queues[k])
+//@   ensures [metaFromQueue] forall k in ssn.ClusterInfo.Queues :: metaFromQueue(pp.queues[k], ssn.ClusterInfo.Queues[k])
+//@   ensures [usageFromUsage] forall k in ssn.ClusterInfo.Queues :: k in ssn.ClusterInfo.QueueResourceUsage.Queues ==> usageFromUsage(pp.queues[k], ssn.ClusterInfo.QueueResourceUsage.Queues[k])
+//@   ensures [noUsageRecord] forall k in ssn.ClusterInfo.Queues :: !(k in ssn.ClusterInfo.QueueResourceUsage.Queues) ==> pp.queues[k].CPU.Usage == 0.0 && pp.queues[k].Memory.Usage == 0.0 && pp.queues[k].GPU.Usage == 0.0
+//@   ensures [cachesOK] forall k in ssn.ClusterInfo.Queues :: rs.cacheOK(pp.queues[k])
+//@   ensures [zeroed] forall k in ssn.ClusterInfo.Queues :: zeroShare(pp.queues[k].CPU) && zeroShare(pp.queues[k].Memory) && zeroShare(pp.queues[k].GPU)
+//@   ensures [othersKept] forall k common_info.QueueID :: !(k in ssn.ClusterInfo.Queues) ==> pp.queues[k] == old(pp.queues[k]) && (k in pp.queues) == old(k in pp.queues)
+//@   ensures [exactKeys] forall k common_info.QueueID :: k in pp.queues <==> (k in ssn.ClusterInfo.Queues || old(k in pp.queues))
+//@ end
+
+// ---- usage bookkeeping at session open (C14 establish, C08 inputs) -----------------------------------
+// The per-task charge is exact in the two callees above (job's queue and EVERY ancestor, per resource,
+// AllocatedNotPreemptible iff the job is non-preemptible). The fold over all jobs / statuses / tasks is a
+// sum over map key sets, which the spec language cannot express; what IS decided here, for every iteration
+// order of the three nested maps:
+//  [offChainUntouched]   a queue that is on the parent chain of no job's queue keeps all nine counters;
+//  [onlyAllocatedChargesAllocated] if no pod-status key of any job is an allocated status, no Allocated /
+//                        AllocatedNotPreemptible counter moves (pending tasks raise Request only);
+//  [nonPreemptibleOnlyFromNonPreemptible] if every job is preemptible no AllocatedNotPreemptible moves;
+//  [requestFollowsAllocated] without Pending keys, Request and Allocated move by the same amount;
+//  frame: nothing but Allocated / Request / AllocatedNotPreemptible changes (Deserved, MaxAllowed,
+//  OverQuotaWeight, FairShare, Usage, the queue map and the hierarchy links are inputs and stay).
+//@ define jobsOK(pp *proportionPlugin, ssn *framework.Session) bool = forall j in ssn.ClusterInfo.PodGroupInfos :: ssn.ClusterInfo.PodGroupInfos[j] != nil && utils.chainOK(pp.queues, ssn.ClusterInfo.PodGroupInfos[j].Queue)
+//@ define tasksOK(ssn *framework.Session) bool = forall t *pod_info.PodInfo :: t != nil ==> t.AcceptedResource != nil && t.ResReq != nil
+//@ define noNilTask(ssn *framework.Session) bool = forall j in ssn.ClusterInfo.PodGroupInfos :: forall st in ssn.ClusterInfo.PodGroupInfos[j].PodStatusIndex :: forall id in ssn.ClusterInfo.PodGroupInfos[j].PodStatusIndex[st] :: ssn.ClusterInfo.PodGroupInfos[j].PodStatusIndex[st][id] != nil
+//@ define offAllChains(pp *proportionPlugin, ssn *framework.Session, q *rs.QueueAttributes) bool = forall j in ssn.ClusterInfo.PodGroupInfos :: !utils.onChain(pp.queues, ssn.ClusterInfo.PodGroupInfos[j].Queue, q)
+//@ define noAllocatedStatus(ssn *framework.Session) bool = forall j in ssn.ClusterInfo.PodGroupInfos :: forall st in ssn.ClusterInfo.PodGroupInfos[j].PodStatusIndex :: bitand(pod_status.allocatedStatuses, st) == 0
+//@ define allPreemptible(ssn *framework.Session) bool = forall j in ssn.ClusterInfo.PodGroupInfos :: ssn.ClusterInfo.PodGroupInfos[j].Preemptibility == "preemptible"
+//@ define noPendingStatus(ssn *framework.Session) bool = forall j in ssn.ClusterInfo.PodGroupInfos :: !(pod_status.Pending in ssn.ClusterInfo.PodGroupInfos[j].PodStatusIndex)
+//@ define allocSame(q *rs.QueueAttributes) bool = q.CPU.Allocated == old(q.CPU.Allocated) && q.Memory.Allocated == old(q.Memory.Allocated) && q.GPU.Allocated == old(q.GPU.Allocated)
+//@ define anpSame(q *rs.QueueAttributes) bool = q.CPU.AllocatedNotPreemptible == old(q.CPU.AllocatedNotPreemptible) && q.Memory.AllocatedNotPreemptible == old(q.Memory.AllocatedNotPreemptible) && q.GPU.AllocatedNotPreemptible == old(q.GPU.AllocatedNotPreemptible)
+//@ define reqSame(q *rs.QueueAttributes) bool = q.CPU.Request == old(q.CPU.Request) && q.Memory.Request == old(q.Memory.Request) && q.GPU.Request == old(q.GPU.Request)
+//@ define reqMinusAllocSame(q *rs.QueueAttributes) bool = q.CPU.Request - q.CPU.Allocated == old(q.CPU.Request - q.CPU.Allocated) && q.Memory.Request - q.Memory.Allocated == old(q.Memory.Request - q.Memory.Allocated) && q.GPU.Request - q.GPU.Allocated == old(q.GPU.Request - q.GPU.Allocated)
+
+//@ func (*proportionPlugin).updateQueuesCurrentResourceUsage
+//@   props C14 C08 C10
+//@   requires pp != nil && ssn != nil && ssn.ClusterInfo != nil
+//@   requires jobsOK(pp, ssn)
+//@   requires tasksOK(ssn)
+//@   requires noNilTask(ssn)
+//@   requires ssn.ClusterInfo.MinNodeGPUMemory > 0   // established by snapshotNodes (starts at DefaultGpuMemory = 100)
+//@   modifies family(pp.queues[""].CPU.Allocated), family(pp.queues[""].CPU.Request), family(pp.queues[""].CPU.AllocatedNotPreemptible)
+//@   loop 1
+//@     invariant forall m rs.ResourceQuantities, r string :: old(allocated(m)) ==> m[r] == old(m[r]) && (r in m) == old(r in m)
+//@     invariant forall q *rs.QueueAttributes :: offAllChains(pp, ssn, q) ==> allocSame(q) && anpSame(q) && reqSame(q)
+//@     invariant noAllocatedStatus(ssn) ==> (forall q *rs.QueueAttributes :: allocSame(q) && anpSame(q))
+//@     invariant allPreemptible(ssn) ==> (forall q *rs.QueueAttributes :: anpSame(q))
+//@     invariant noPendingStatus(ssn) ==> (forall q *rs.QueueAttributes :: reqMinusAllocSame(q))
+//@   loop 2
+//@     invariant forall m rs.ResourceQuantities, r string :: old(allocated(m)) ==> m[r] == old(m[r]) && (r in m) == old(r in m)
+//@     invariant forall q *rs.QueueAttributes :: offAllChains(pp, ssn, q) ==> allocSame(q) && anpSame(q) && reqSame(q)
+//@     invariant noAllocatedStatus(ssn) ==> (forall q *rs.QueueAttributes :: allocSame(q) && anpSame(q))
+//@     invariant allPreemptible(ssn) ==> (forall q *rs.QueueAttributes :: anpSame(q))
+//@     invariant noPendingStatus(ssn) ==> (forall q *rs.QueueAttributes :: reqMinusAllocSame(q))
+//@   loop 3
+//@     invariant forall q *rs.QueueAttributes :: offAllChains(pp, ssn, q) ==> allocSame(q) && anpSame(q) && reqSame(q)
+//@     invariant noAllocatedStatus(ssn) ==> (forall q *rs.QueueAttributes :: allocSame(q) && anpSame(q))
+//@     invariant allPreemptible(ssn) ==> (forall q *rs.QueueAttributes :: anpSame(q))
+//@     invariant noPendingStatus(ssn) ==> (forall q *rs.QueueAttributes :: reqMinusAllocSame(q))
+//@   loop 4
+//@     invariant forall m rs.ResourceQuantities, r string :: old(allocated(m)) ==> m[r] == old(m[r]) && (r in m) == old(r in m)
+//@     invariant forall q *rs.QueueAttributes :: offAllChains(pp, ssn, q) ==> allocSame(q) && anpSame(q) && reqSame(q)
+//@     invariant noAllocatedStatus(ssn) ==> (forall q *rs.QueueAttributes :: allocSame(q) && anpSame(q))
+//@     invariant allPreemptible(ssn) ==> (forall q *rs.QueueAttributes :: anpSame(q))
+//@     invariant noPendingStatus(ssn) ==> (forall q *rs.QueueAttributes :: reqMinusAllocSame(q))
+//@   ensures [offChainUntouched] forall q *rs.QueueAttributes :: offAllChains(pp, ssn, q) ==> allocSame(q) && anpSame(q) && reqSame(q)
+//@   ensures [onlyAllocatedChargesAllocated] noAllocatedStatus(ssn) ==> (forall q *rs.QueueAttributes :: allocSame(q) && anpSame(q))
+//@   ensures [nonPreemptibleOnlyFromNonPreemptible] allPreemptible(ssn) ==> (forall q *rs.QueueAttributes :: anpSame(q))
+//@   ensures [requestFollowsAllocated] noPendingStatus(ssn) ==> (forall q *rs.QueueAttributes :: reqMinusAllocSame(q))
+//@ end
+
+// ---- session-open composition --------------------------------------------------------------------
+// setFairShare starts the C09 recursion at the top queues with the cluster totals. Only FairShare (and its
+// cache) moves: the per-resource inputs built above are still the configured ones afterwards.
+//@ func (*proportionPlugin).setFairShare
+//@   props C09 C10
+//@   requires pp != nil && shapeOK(pp.queues)
+//@   requires childrenPresent(pp.queues)
+//@   requires cachesOK(pp.queues)
+//@   modifies family(pp.queues[""].CPU.FairShare), family(pp.queues[""].lastFairShare)
+//@   ensures [cachesKept] cachesOK(pp.queues)
+//@ end
+
+// ---- simulation copy (C07: the reclaim scenario validator reads pp.jobSimulationQueues) ----------------
+// At the start of a job's solution the validator's queue map is a COPY of the live one: same key set, a
+// distinct attributes object per queue, and per resource the same Deserved / FairShare / MaxAllowed /
+// OverQuotaWeight / Allocated / AllocatedNotPreemptible / Request / Usage, same identity and parent link.
+//@ define sameShare(a *rs.ResourceShare, b *rs.ResourceShare) bool = a.Deserved == b.Deserved && a.FairShare == b.FairShare && a.MaxAllowed == b.MaxAllowed && a.OverQuotaWeight == b.OverQuotaWeight && a.Allocated == b.Allocated && a.AllocatedNotPreemptible == b.AllocatedNotPreemptible && a.Request == b.Request && a.Usage == b.Usage
+//@ define sameIdentity(a *rs.QueueAttributes, b *rs.QueueAttributes) bool = a.UID == b.UID && a.Name == b.Name && a.ParentQueue == b.ParentQueue && a.Priority == b.Priority
+
+//@ func slices.Clone
+//@   trusted
+//@   note library (slices): "Clone returns a copy of the slice. The elements are copied using assignment, so this is a shallow clone." Same length, same elements, nothing else written (used by rs.QueueAttributes.Clone for ChildQueues).
+//@   ensures [sameLength] len(result) == len(arg0)
+//@   ensures [sameElements] forall i in arg0 :: result[i] == arg0[i]
+//@ end
+
+//@ func (*proportionPlugin).OnJobSolutionStartFn
+//@   props C07
+//@   requires pp != nil && allocated(pp.queues)
+//@   requires forall k in pp.queues :: pp.queues[k] != nil && allocated(pp.queues[k])   // heap well-formedness: the live records exist before the copies are made
+//@   modifies pp.jobSimulationQueues
+//@   loop 1
+//@     invariant pp.jobSimulationQueues != nil && fresh(pp.jobSimulationQueues)
+//@     invariant forall k in visited :: k in pp.queues
+//@     invariant forall k common_info.QueueID :: pp.queues[k] == old(pp.queues[k]) && (k in pp.queues) == old(k in pp.queues)
+//@     invariant forall k in visited :: k in pp.jobSimulationQueues && pp.jobSimulationQueues[k] != nil && fresh(pp.jobSimulationQueues[k]) && allocated(pp.jobSimulationQueues[k])
+//@     invariant forall k in visited :: sameIdentity(pp.jobSimulationQueues[k], pp.queues[k])
+//@     invariant forall k in visited :: sameShare(pp.jobSimulationQueues[k].CPU, pp.queues[k].CPU)
+//@     invariant forall k in visited :: sameShare(pp.jobSimulationQueues[k].Memory, pp.queues[k].Memory)
+//@     invariant forall k in visited :: sameShare(pp.jobSimulationQueues[k].GPU, pp.queues[k].GPU)
+//@     invariant forall k in pp.jobSimulationQueues :: k in visited
+//@   ensures [copied] forall k in pp.queues :: k in pp.jobSimulationQueues && pp.jobSimulationQueues[k] != nil && pp.jobSimulationQueues[k] != pp.queues[k]
+//@   ensures [sameIdentity] forall k in pp.queues :: sameIdentity(pp.jobSimulationQueues[k], pp.queues[k])
+//@   ensures [cpuFromCPU] forall k in pp.queues :: sameShare(pp.jobSimulationQueues[k].CPU, pp.queues[k].CPU)
+//@   ensures [memoryFromMemory] forall k in pp.queues :: sameShare(pp.jobSimulationQueues[k].Memory, pp.queues[k].Memory)
+//@   ensures [gpuFromGPU] forall k in pp.queues :: sameShare(pp.jobSimulationQueues[k].GPU, pp.queues[k].GPU)
+//@   ensures [noExtraQueues] forall k in pp.jobSimulationQueues :: k in pp.queues
+//@ end
+
+// ---- plugin construction (C07 quantifier: "all saturation multipliers >= 1") ----------------------------
+// FINDING (kept OUT of the checked clauses, see helper report "glue"): the property-derived postconditions
+//   [multiplierAtLeastOne] unbox(result, "*proportionPlugin").relcaimerSaturationMultiplier >= 1.0
+//   [kValueNonNegative]    unbox(result, "*proportionPlugin").kValue >= 0.0
+// are violated by the real code for the plugin argument value "NaN": strconv.ParseFloat("NaN") succeeds,
+// `NaN < 1.0` / `NaN <= 0.0` are false, so the clamp is skipped and the plugin runs with a NaN multiplier /
+// kValue (reproduced with a Go test: New({"relcaimerSaturationMultiplier":"NaN","kValue":"NaN"})).
+// govc reports both as sat under `ieee`. What remains checked: the plugin starts with an empty queue map.
+//@ func New
+//@   props C07 C09
+//@   ieee
+//@   ensures [isProportionPlugin] typeis(result, "*proportionPlugin")
+//@   ensures [emptyQueueMap] unbox(result, "*proportionPlugin").queues != nil && (forall k common_info.QueueID :: !(k in unbox(result, "*proportionPlugin").queues))
+//@ end
